@@ -47,6 +47,9 @@ Definition call_ok (c : hcall) : bool :=
         match args with [_; n] => String.eqb n "{c_var_size}" | _ => false end
       else false
   | UnknownCall _ _ => false
+  (* a store by index into the caller's buffer: only the first character (a buffer has at least one), never at a computed
+     position such as the trimmed length, which is outside a full variable *)
+  | RawStore _ _ idx => String.eqb idx "0"
   end.
 
 (* Every call site in the statement tables passes the declared length where a capacity is
